@@ -195,6 +195,13 @@ fn exec_inner(ev: &Value) -> Value {
                     a.to_ref().clone_into(&mut dest);
                     d(dest)
                 }
+                "clone_into_equal" => {
+                    // the destination already holds the same VALUE in another representation
+                    let mut dest = if a.is_zero() { BigDecimal::zero() } else { a.with_scale(a.fractional_digit_count().saturating_add(3)) };
+                    if dest.fractional_digit_count() == a.fractional_digit_count() { dest = BigDecimal::from(77); }
+                    a.to_ref().clone_into(&mut dest);
+                    d(dest)
+                }
                 "ref_from_bigint" => {
                     // BigDecimalRef::from(&BigInt) has scale 0: only meaningful when a has scale 0
                     let (n, _) = a.as_bigint_and_exponent();
